@@ -282,6 +282,12 @@ int:readmode = 1
 int:syncmode = 1
 int:checkmode = 2
 """
+# over-long lines (the quantifier names them; libFuzzer's length control does not reach 8 KB within a quick run):
+# a constraint line of 9200 characters made of short tokens, and an MPS line beyond the 255 characters of MPSInput
+LONG = {}
+LONG["lp_line_9200"] = "min\n x\nst\n c1: " + "+1 x " * 2300 + " >= 1\n c2: x <= 5\nend\n"
+LONG["lp_comment_9000"] = "min\n x \\" + "c" * 9000 + "\nst\n c1: x >= 1\nend\n"
+LONG["mps_line_300"] = "NAME\nROWS\n N  obj\n G  " + "r" * 300 + "\nCOLUMNS\nRHS\nENDATA\n"
 SETSTR = ["int:iterlimit = 20", "bool:fullperturbation=true", "real:feastol = 1e-9", "uint:random_seed = 7",
           "  int : scaler = 0 # c", "real:objlimit_lower = -1e+100"]
 
@@ -318,6 +324,10 @@ def main():
     put(r, bytes([2 | 16]) + MPS["ranges_offset_markers"].encode())
     put(r, bytes([1]) + afiro)
     put(r, bytes([3]) + afiro)
+    put(r, bytes([0]) + LONG["lp_line_9200"].encode())
+    put(r, bytes([2]) + LONG["lp_line_9200"].encode())
+    put(r, bytes([0]) + LONG["lp_comment_9000"].encode())
+    put(r, bytes([1]) + LONG["mps_line_300"].encode())
     # T2: bits0-2 reader (0 LP, 1 MPS, 2 BAS, 3 settings file, 4 settings string), bit3 rational read mode,
     #     bit4 syncmode auto / named basis, bits5-7 == 7: gz
     for k, t in LP.items():
@@ -334,6 +344,10 @@ def main():
     put(s, bytes([1 | 0xE0]) + MPS["free_format_objsense_objname"].encode())
     put(s, bytes([1]) + afiro)
     put(s, bytes([1 | 8 | 16]) + afiro)
+    put(s, bytes([0]) + LONG["lp_line_9200"].encode())
+    put(s, bytes([0 | 8]) + LONG["lp_comment_9000"].encode())
+    put(s, bytes([1]) + LONG["mps_line_300"].encode())
+    put(s, bytes([3]) + ("int:iterlimit = 10" + " " * 600 + "\nbool:lifting = true\n").encode())
     for k, t in BAS.items():
         put(s, bytes([2]) + t.encode())
         put(s, bytes([2 | 16]) + t.encode())
